@@ -5,7 +5,7 @@
    patches/fix-C05-empty-key.patch; the pinned writer is refuted in
    Refuted/C05_refuted.v together with the delimiter witnesses (F05b). *)
 From Coq Require Import ZArith List Bool Permutation.
-From Tally Require Import Base.Obs Model.KeyGen Model.Deriv Proof.ParamsOkKey Proof.KeyGenP Proof.DerivP.
+From Tally Require Import Base.ObsCore Model.KeyGen Model.Deriv Proof.ParamsOkKey Proof.KeyGenP Proof.DerivP.
 Import ListNotations.
 Open Scope Z_scope.
 
